@@ -252,6 +252,7 @@ func (z *c19Zeros) Read(p []byte) (int, error) {
 // ---------------------------------------------------------------------------
 
 type c19Stats struct {
+	excluded []string // known findings whose harness-side avoidance fired
 	labels   []string
 	requests int
 	nontriv  bool
@@ -277,6 +278,9 @@ func c19Run(c c19Case, st *c19Stats) (violation string, harnessErr error) {
 			}
 		}
 	}()
+	if !env.wgUsable {
+		st.label("harness:engine-waitgroup-not-readable")
+	}
 	rootEsc := url.PathEscape(env.root)
 	anyDrop := false
 	tainted := false // state reads became unreliable (digest broke); stop asserting state equality
@@ -329,6 +333,9 @@ func c19Run(c c19Case, st *c19Stats) (violation string, harnessErr error) {
 		}
 		st.label("status:" + c19StatusClass(resp.status))
 		pat := resp.pattern
+		if resp.status >= 300 && resp.status < 400 {
+			pat = "" // the mux answered with a path-cleaning redirect; no handler ran, no body was read
+		}
 		if pat == "" {
 			st.label("route:(no handler: mux 404/405/redirect)")
 		} else {
@@ -383,11 +390,21 @@ func c19Run(c c19Case, st *c19Stats) (violation string, harnessErr error) {
 			st.label("traversal-name-on-create/add/drop")
 			st.nontriv = true
 		}
+		if n, ok := c19PathName(pat, target); ok && c19Escapes(n) {
+			st.label("escaping-name-reaches-handler:" + pat)
+			st.nontriv = true
+		}
 		if pat == "DELETE /vector/indexes/{name}" && resp.status == 204 {
 			anyDrop = true
 		}
-		if pat == "POST /vector/actions/import/commit" && resp.status == 200 {
-			time.Sleep(2 * time.Millisecond) // the untracked turbo-refine pass on a handful of nodes
+		if pat == "POST /vector/actions/import/commit" && resp.status == 200 && !c.NoSettle && verifkit.Known("import-commit-then-drop-segv") {
+			st.excluded = append(st.excluded, "import-commit-then-drop-segv")
+			// VImportCommit starts an untracked goroutine (RunTurboRefine) that reads the
+			// arena; a drop / compress / Close that unmaps the arena under it faults. That
+			// race is timing dependent, so the campaign waits for the pass to finish.
+			if !c19WaitRefineIdle(20 * time.Second) {
+				st.label("harness:turbo-refine-still-running")
+			}
 		}
 
 		// (4) a 4xx answer leaves the database unchanged
@@ -485,6 +502,26 @@ func (env *c19Env) closeEngineOnly() string {
 	return note
 }
 
+// c19PathName returns the {name} path value the handler of pattern pat sees.
+func c19PathName(pat, target string) (string, bool) {
+	_, pp, ok := strings.Cut(pat, " ")
+	if !ok || !strings.Contains(pp, "{name}") {
+		return "", false
+	}
+	tp, _, _ := strings.Cut(target, "?")
+	ps, ts := strings.Split(pp, "/"), strings.Split(tp, "/")
+	if len(ps) != len(ts) {
+		return "", false
+	}
+	for i := range ps {
+		if ps[i] == "{name}" {
+			n, err := url.PathUnescape(ts[i])
+			return n, err == nil
+		}
+	}
+	return "", false
+}
+
 // c19TraversalOnLifecycle: does a name with ".." (after decoding) reach a create / add / drop route?
 func c19TraversalOnLifecycle(pat, target string, body []byte) bool {
 	switch pat {
@@ -515,6 +552,9 @@ func TestVerif_C19_http(t *testing.T) {
 	col.Note("the 512 MB body-size limit is probed once per thorough run (shard 0) with a streaming reader, never in the quick tier")
 
 	record := func(c c19Case, st *c19Stats) {
+		for _, e := range st.excluded {
+			col.Excluded(e)
+		}
 		col.Case(c, st.nontriv, st.labels...)
 		col.Label("requests-served", st.requests)
 		for _, n := range st.notes {
@@ -566,7 +606,7 @@ func TestVerif_C19_http(t *testing.T) {
 		}
 	}
 
-	verifkit.RapidSetup(430, 4300)
+	verifkit.RapidSetup(430, 21500)
 	rapid.Check(t, func(rt *rapid.T) {
 		c := c19GenCase().Draw(rt, "case")
 		for _, name := range c.excluded {
